@@ -58,11 +58,15 @@ struct Handle {
     shared: bool,
 }
 
+// Every safe way of putting a value into a pool: each constructor of the pool x `insert` (the
+// `insert_with*` / `*_unchecked` variants are unsafe fns and outside "safe code").
 const R_MANAGED: &[(&str, &str)] = &[
     ("opaque", "OpaquePool::with_layout_of::<{T}>().insert({v})"),
+    ("opaque-with-layout", "OpaquePool::with_layout(std::alloc::Layout::new::<{T}>()).insert({v})"),
     ("pinned", "PinnedPool::<{T}>::new().insert({v})"),
+    ("pinned-default", "PinnedPool::<{T}>::default().insert({v})"),
 ];
-const R_BLIND: &[(&str, &str)] = &[("blind", "BlindPool::new().insert({v})")];
+const R_BLIND: &[(&str, &str)] = &[("blind", "BlindPool::new().insert({v})"), ("blind-default", "BlindPool::default().insert({v})")];
 const R_RAW: &[(&str, &str)] = &[
     ("rawopaque", "RawOpaquePool::with_layout_of::<{T}>().insert({v})"),
     ("rawpinned", "RawPinnedPool::<{T}>::new().insert({v})"),
@@ -370,7 +374,19 @@ fn cargo_build(ws: &Path, package: &str, extra: &[&str]) -> BuildResult {
 // ---------------------------------------------------------------------------------------------
 
 /// (forbidden by the rule used for the verdict, forbidden by the plain std Arc/Box rule)
-fn reference(h: &Handle, t_send: bool, t_sync: bool, tr: &str) -> (Option<bool>, Option<bool>) {
+fn reference(h: &Handle, form: &str, t_send: bool, t_sync: bool, tr: &str) -> (Option<bool>, Option<bool>) {
+    if form == "erased" {
+        // An erased handle gives no access to the payload; what it can still do is move the
+        // payload's destruction to another thread: by being sent there (Send), or - shared
+        // handles only - by being cloned there through a shared reference (Sync). Both need a
+        // payload that permits sending; here t_send / t_sync describe the PAYLOAD that was erased.
+        let moves_destruction = tr == "Send" || h.family == Family::ManagedShared;
+        return match h.family {
+            Family::Local => (Some(true), Some(true)),
+            Family::Raw => (None, None),
+            Family::ManagedShared | Family::ManagedUnique => (Some(moves_destruction && !t_send), Some(moves_destruction && !t_send)),
+        };
+    }
     match h.family {
         Family::Local => (Some(true), Some(true)),
         Family::Raw => (None, None),
@@ -546,15 +562,16 @@ fn main() {
         for form in FORMS {
             for (ci, cl) in CLASSES.iter().enumerate() {
                 let ty = type_of(h, form, cl);
-                // Auto traits of the type-level parameter.
-                let (t_send, t_sync) = if *form == "erased" { (true, true) } else { (cl.send, cl.sync) };
+                // Auto traits of the payload (for the erased form: of the payload that was erased;
+                // the type-level parameter `()` says nothing).
+                let (t_send, t_sync) = (cl.send, cl.sync);
                 let routes = inhabit.get(&(hi, *form, ci)).cloned().unwrap_or_default();
                 let inhabited = routes.iter().any(|r| r.1);
                 let via: Vec<String> = routes.iter().filter(|r| r.1).map(|r| r.0.clone()).collect();
                 for tr in TRAITS {
                     cells += 1;
                     let (admitted, probe) = trait_answer.get(&(ty.clone(), *tr)).cloned().expect("trait probe");
-                    let (forbidden, std_forbidden) = reference(h, t_send, t_sync, tr);
+                    let (forbidden, std_forbidden) = reference(h, form, t_send, t_sync, tr);
                     let cell = json!({"handle": h.name, "form": form, "payload_class": cl.label, "type": ty, "trait": tr, "rustc_admits": admitted, "rule_forbids": forbidden, "std_rule_forbids": std_forbidden, "inhabited_by_safe_code": inhabited, "inhabited_via": via, "trait_probe": probe});
                     c.distinct_hash(vcommon::hash_str(&format!("{}|{form}|{}|{tr}", h.name, cl.label)));
                     let fam = format!("{:?}", h.family);
